@@ -126,7 +126,9 @@ func (s *Service) submitValidatorRegistrationsForAccounts(ctx context.Context,
 			relayRegistrations,
 		)
 		if err != nil {
-			return err
+			// A problem with one account should not stop the registrations of the others.
+			s.log.Warn().Err(err).Msg("Failed to generate validator registrations for account")
+			continue
 		}
 		consensusRegistrations = append(consensusRegistrations, accountConsensusRegistrations...)
 	}
